@@ -238,8 +238,33 @@ def run_overlap(ncallers, connect_latency_steps):
     return vio, len(ids)
 
 
+def factory_stage(rep):
+    """Requests built the way the library builds them - protocol.read_command / write_command / write_multi_command -
+    by SEVERAL protocol objects with different communication addresses living in one process, in interleaved order and
+    twice: every frame decodes to the address of the object that built it and to the arguments of that very call."""
+    n = 0
+    units = (0xF7, 0x7F, 0x11, 0x01)
+    protos = [(kind, u, make_protocol(kind, 1, 0, False, unit=u)) for kind in ('udp', 'tcp') for u in units]
+    calls = [('read', 0x891C, 4), ('read', 0x891C, 5), ('read', 47547, 6), ('write', 47510, 1234), ('write', 47510, -2),
+             ('multi', 47515, bytes(range(8))), ('multi', 47515, bytes(range(8, 16)))]
+    for rnd in range(2):
+        order = protos if rnd == 0 else protos[::-1]
+        for call in calls:
+            for kind, u, p in order:
+                cmd = p.read_command(call[1], call[2]) if call[0] == 'read' else \
+                    p.write_command(call[1], call[2]) if call[0] == 'write' else p.write_multi_command(call[1], call[2])
+                req = cmd.request_bytes()
+                n += 1
+                got = parse('tcp' if kind == 'tcp' else 'rtu', req)
+                want = intended(('tcp-' if kind == 'tcp' else 'rtu-') + call[0], (u, call[1], call[2]))
+                if got != want:
+                    rep.add(f'decodes/{kind}-{call[0]}/built-by-protocol-objects', 'request decodes to the intended operation',
+                            dict(part='factory'), dict(request=req.hex(), decoded=got, intended=want, unit=hex(u), round=rnd))
+    return n
+
+
 def run(tier, seed, rep):
-    novl = 0
+    novl = factory_stage(rep)
     for nc in (2, 3):
         for steps in (0, 1, 3):
             vio, k = run_overlap(nc, steps)
@@ -300,6 +325,11 @@ def replay(r):
         vio = {}
         one(vio, r['ctor'], tuple(a))
         return dict(violations=[(k, v[0]['detail']) for k, v in vio.items()])
+    if r['part'] == 'factory':
+        from ..findings import Report
+        rp = Report('C03')
+        factory_stage(rp)
+        return dict(violations=sorted(rp.by_key))
     if r['part'] == 'overlap':
         vio, k = run_overlap(r['callers'], r['steps'])
         return dict(transmissions=k, violations=vio)
